@@ -41,8 +41,8 @@ def scenarios(env, offset):
 
     out = []
 
-    def add(name, traced, expr, table=None, key=None, threads=(2, 3), wide=False):
-        out.append(dict(name=name, traced=traced, expr=expr, table=table, key=key, threads=threads, wide=wide))
+    def add(name, traced, expr, table=None, key=None, threads=(2, 3), wide=False, mixed=None, post=None):
+        out.append(dict(name=name, traced=traced, expr=expr, table=table, key=key, threads=threads, wide=wide, mixed=mixed, post=post))
 
     add("Dimension(exponents)", NEW, lambda n: (lambda: Dimension(dim_exps(n))), Dimension._known, lambda n: dim_exps(n))
     add("Length**k", DIMOPS, lambda n: (lambda: Length ** (2000 + offset + n)))
@@ -83,6 +83,52 @@ def scenarios(env, offset):
     add("Logarithm(base)", LOG, lambda n: (lambda: Logarithm(float(32000 + offset + n))), Logarithm._known, None)
     add("Prefix*Logarithm", LOG | PFX, lambda n: (lambda p=Prefix(23, 13000 + offset + n): p * m.Bel), Logarithm._known, None)
     add("Decibel[reference]", LOG, lambda n: (lambda ref=(14000 + offset + n) * Watt: m.Decibel[ref]), LogarithmicUnit._known, None)
+    # a declaration (name and symbol given) racing with anonymous constructions of the same object: the threads
+    # run *different* expressions denoting one object; afterwards every lookup that answers - by key, by name,
+    # by symbol - answers with that object (a name that ends up unbound is not judged here)
+    def lookups(pairs):
+        def post(n, obj):
+            bad = []
+            for what, table, k in pairs(n):
+                got = table.get(k)
+                if got is not None and got is not obj:
+                    bad.append(f"{what}[{k!r}] is another object (initialised: {getattr(got, '_initialized', '?')})")
+            return bad
+        return post
+
+    def dname(n):
+        return f"c20 dimension {offset + n}", f"c20D{offset + n}"
+
+    def named_dim(n, k):
+        nm, sy = dname(n)
+        e = tuple([0, 0, 33000 + offset + n] + [0] * (width - 3))
+        named, anon = (lambda: Dimension(e, name=nm, symbol=sy)), (lambda: Dimension(e))
+        return [named, anon] if k == 2 else [named, anon, (lambda: Dimension(e, name=nm, symbol=sy))]
+    add("Dimension declared vs anonymous", NEW, lambda n: (lambda: Dimension(tuple([0, 0, 33000 + offset + n] + [0] * (width - 3)))),
+        Dimension._known, lambda n: tuple([0, 0, 33000 + offset + n] + [0] * (width - 3)), mixed=named_dim,
+        post=lookups(lambda n: [("Dimension._by_name", Dimension._by_name, dname(n)[0])]))
+
+    def pname(n):
+        return f"c20prefix{offset + n}", f"c20p{offset + n}"
+
+    def named_pfx(n, k):
+        nm, sy = pname(n)
+        named, anon = (lambda: Prefix(43, 34000 + offset + n, name=nm, symbol=sy)), (lambda: Prefix(43, 34000 + offset + n))
+        return [named, anon] if k == 2 else [anon, named, (lambda a=Prefix(43, 34000 + offset + n - 1), b=Prefix(43, 1): a * b)]
+    add("Prefix declared vs anonymous", PFX, lambda n: (lambda: Prefix(43, 34000 + offset + n)), Prefix._known, lambda n: (43, 34000 + offset + n), mixed=named_pfx,
+        post=lookups(lambda n: [("Prefix._by_name", Prefix._by_name, pname(n)[0]), ("Prefix._by_symbol", Prefix._by_symbol, pname(n)[1])]))
+
+    def uname(n):
+        return f"c20unit{offset + n}", f"c20u{offset + n}"
+
+    def named_unit(n, k):
+        nm, sy = uname(n)
+        e = 35000 + offset + n
+        dim = Length ** e
+        named, anon = (lambda: Unit(m.IdentityPrefix, {Meter: e}, dim, nm, sy)), (lambda: Meter ** e)
+        return [named, anon] if k == 2 else [anon, named, (lambda: Unit(m.IdentityPrefix, {Meter: e}, dim))]
+    add("Unit declared vs anonymous", UNITOPS | DIMOPS, lambda n: (lambda: Meter ** (35000 + offset + n)), mixed=named_unit, wide=True,
+        post=lookups(lambda n: [("Unit._by_name", Unit._by_name, uname(n)[0]), ("Unit._by_symbol", Unit._by_symbol, uname(n)[1])]))
     return out
 
 
@@ -108,6 +154,8 @@ def run(ctx):
                 base["n"] += 1
                 n = base["n"] + (100000 if nthreads == 3 else 0)
                 base["cur"] = n
+                if sc["mixed"]:
+                    return sc["mixed"](n, nthreads)
                 thunk = sc["expr"]
                 return [thunk(n) for _ in range(nthreads)]
 
@@ -141,6 +189,10 @@ def run(ctx):
                     k = sc["key"](base["cur"])
                     if sc["table"].get(k) is not objs[0]:
                         ctx.violation(f"C20:table-holds-another-object:{sc['name']}", f"{label}: the intern table maps the key to another object", case)
+                if sc["post"] is not None:
+                    ctx.count("name_registry_lookups_checked")
+                    for bad in sc["post"](base["cur"], objs[0]):
+                        ctx.violation(f"C20:lookup-returns-another-object:{sc['name']}", f"{label}: after all threads obtained one object, {bad} under schedule {case['schedule']}", case)
 
             deadline = time.time() + per_scenario_budget
             # iterative preemption bounding: every lower bound is completed before the next one starts, so a
